@@ -580,8 +580,39 @@ macro_rules! placeholder {
     ($cx:expr, $case:expr, $phase:expr, $dir:expr, $ty:path, $wire:expr) => {{
         let wire: Pkt = $wire;
         let back = wire.clone();
+        let has_content = format!("{wire:?}").contains("raw");
+        let name = wire.name();
         check($cx, $case, $phase, $dir, $ty, wire.clone(), wire, false, move |_| back.clone());
+        if has_content {
+            placeholder_framing::<$ty>($cx, $case, name);
+        }
     }};
+}
+
+/// A packet whose content the crate does not look at (a placeholder type) still is a frame: read
+/// from a stream with `read_packet`, all of it is consumed and the next frame starts where it should.
+fn placeholder_framing<T: ReadPacket + Send + Sync>(cx: &mut Ctx, case: &Value, name: &str) {
+    const NEXT: [u8; 10] = [0x09, 0x04, 0x11, 0x22, 0x33, 0x44, 0x55, 0x66, 0x77, 0x2a];
+    for body in [&b"\x0fminecraft:brand\x07vanilla"[..], &[0x01][..], &[0xff; 300][..]] {
+        let frame = vp_common::refcodec::frame(T::ID, body);
+        let mut stream = frame.clone();
+        stream.extend_from_slice(&NEXT);
+        let mut cur = Cursor::new(&stream[..]);
+        let seen = drive(cur.read_packet::<T>());
+        let pos = cur.position() as usize;
+        cx.tally("placeholder frame with content read from a stream with a following frame", name);
+        match seen {
+            Run::Done(Ok(_)) if pos == frame.len() => {}
+            Run::Done(Ok(_)) => cx.rep.violation(
+                &format!("framed-read/{name}/content-left-in-the-stream"),
+                &format!("{name}: read_packet returned the packet but left the stream at byte {pos}, the frame ({} bytes of content the type does not look at) ends at byte {}: the next read starts inside this frame", body.len(), frame.len()),
+                json!({"case": case, "clause": "reading a frame consumes exactly the frame", "position": pos, "frame_length": frame.len(), "stream": hex(&stream)}),
+            ),
+            Run::Done(Err(e)) => cx.rep.violation(&format!("framed-read/{name}/error"), &format!("{name}: read_packet rejects a frame with content: {e}"), json!({"case": case, "error": e.to_string(), "stream": hex(&stream)})),
+            Run::Pending => cx.rep.inconclusive_fatal("read_packet stayed Pending over an in-memory buffer"),
+            Run::Panic(p) => cx.rep.violation(&format!("panic/decode/{name}"), &format!("{name}: read_packet panicked: {p}"), json!({"case": case, "panic": p, "stream": hex(&stream)})),
+        }
+    }
 }
 
 fn run_packet(cx: &mut Ctx, case: &Value) -> HResult<()> {
